@@ -4,6 +4,7 @@
   (queue priority), `sort_operation_deque` at CONNACK (protocol.rs).
 -/
 import GV.Proofs.EngineWF
+import GV.Proofs.EngineClose
 namespace GV.Props.C10
 open GV
 
@@ -125,5 +126,16 @@ example : (runEvents (Engine.new {}) [.user 0 (.publish { qos := 1, topic := [97
       .user 0 (.subscribe { subscriptions := [{ topicFilter := [97] }] } 9 none),
       .opened 1 100, .service 2 4096 0, .writeDone 3, .data 4 [0x20, 0x03, 0x00, 0x00, 0x00]]).1.userQ = [1, 2, 3] := by
   decide +kernel
+
+/-- **No operation waits twice.**  After any history the user queue and the resubmit queue together hold no operation
+    twice, and nothing they hold is also in the high-priority queue, written-but-unflushed or awaiting its acknowledgement:
+    an operation cannot be transmitted a second time on a connection by being dequeued again. -/
+theorem queues_never_repeat (cfg : Config) (evs : List Event) :
+    ((runEvents (Engine.new cfg) evs).1.userQ ++ (runEvents (Engine.new cfg) evs).1.resubQ).Nodup ∧
+    ∀ id ∈ (runEvents (Engine.new cfg) evs).1.userQ ++ (runEvents (Engine.new cfg) evs).1.resubQ,
+      id ∉ (runEvents (Engine.new cfg) evs).1.highQ ∧ id ∉ (runEvents (Engine.new cfg) evs).1.pendingWC ∧
+      id ∉ vals (runEvents (Engine.new cfg) evs).1.pendingPub ∧ id ∉ vals (runEvents (Engine.new cfg) evs).1.pendingNonPub :=
+  let x := (inv2_after cfg evs).2
+  ⟨x.x5.1, fun id hi => ⟨x.x5.2 id hi, (x.x2 id hi).1, (x.x2 id hi).2.1, (x.x2 id hi).2.2⟩⟩
 
 end GV.Props.C10
